@@ -274,6 +274,16 @@ func (p *Payload) extractCriticalFieldsFromBytes(data []byte, traceIdFieldNames,
 
 	var keysFound int
 
+	// The trace ID comes from meta.trace_id if that holds a non-empty string,
+	// otherwise from the first field *in configured order* (not wire order) that
+	// holds a non-empty string. traceIDRank is the position in traceIdFieldNames
+	// of the field the current trace ID was taken from; -1 means it is final
+	// (already known on entry, or taken from meta.trace_id).
+	traceIDRank := len(traceIdFieldNames)
+	if p.MetaTraceID != "" {
+		traceIDRank = -1
+	}
+
 	// Read the map header
 	mapSize, remaining, err := msgp.ReadMapHeaderBytes(data)
 	if err != nil {
@@ -313,9 +323,18 @@ func (p *Payload) extractCriticalFieldsFromBytes(data []byte, traceIdFieldNames,
 					typeIsCorrect = valueType == msgp.IntType || valueType == msgp.UintType
 				}
 				if typeIsCorrect {
+					prevTraceID := p.MetaTraceID
 					remaining, err = field.unmarshalMsgp(p, remaining)
 					if err != nil {
 						return len(data) - len(remaining), fmt.Errorf("failed to read value for key %s: %w", string(keyBytes), err)
+					}
+					if string(keyBytes) == MetaTraceID {
+						if p.MetaTraceID == "" {
+							// an empty meta.trace_id must not erase an ID found earlier
+							p.MetaTraceID = prevTraceID
+						} else {
+							traceIDRank = -1
+						}
 					}
 					handled = true
 				}
@@ -324,9 +343,13 @@ func (p *Payload) extractCriticalFieldsFromBytes(data []byte, traceIdFieldNames,
 
 		// Handle special trace ID and parent ID fields
 		if !handled && valueType == msgp.StrType {
-			_, ok := sliceContains(traceIdFieldNames, keyBytes)
-			if p.MetaTraceID == "" && ok {
-				p.MetaTraceID, remaining, err = msgp.ReadStringBytes(remaining)
+			rank, ok := sliceContains(traceIdFieldNames, keyBytes)
+			if ok && rank < traceIDRank {
+				var traceID string
+				traceID, remaining, err = msgp.ReadStringBytes(remaining)
+				if err == nil && traceID != "" {
+					p.MetaTraceID, traceIDRank = traceID, rank
+				}
 				handled = true
 			} else if _, ok := sliceContains(parentIdFieldNames, keyBytes); ok {
 				var parentId string
@@ -412,10 +435,20 @@ func (p *Payload) ExtractMetadata() error {
 
 	// For memoized fields, directly access the map
 	if p.memoizedFields != nil {
+		// see extractCriticalFieldsFromBytes: configured order decides, not (random) map order
+		traceIDRank := len(traceIdFieldNames)
+		if p.MetaTraceID != "" {
+			traceIDRank = -1
+		}
 		for key, value := range p.memoizedFields {
 			// Try metadata fields first
 			handled := false
-			if field, ok := metadataFields[key]; ok {
+			if key == MetaTraceID {
+				if v, ok := value.(string); ok && v != "" {
+					p.MetaTraceID, traceIDRank = v, -1
+				}
+				handled = true
+			} else if field, ok := metadataFields[key]; ok {
 				if field.expectedType == FieldTypeInt64 {
 					switch t := value.(type) {
 					case float64:
@@ -435,9 +468,9 @@ func (p *Payload) ExtractMetadata() error {
 			// If not handled as metadata, check for trace/parent ID fields
 			if !handled {
 				// Check if this is a trace ID field
-				if p.MetaTraceID == "" && slices.Contains(traceIdFieldNames, key) {
+				if rank := slices.Index(traceIdFieldNames, key); rank >= 0 && rank < traceIDRank {
 					if v, ok := value.(string); ok && v != "" {
-						p.MetaTraceID = v
+						p.MetaTraceID, traceIDRank = v, rank
 					}
 				} else if slices.Contains(parentIdFieldNames, key) {
 					// Check if this is a parent ID field
